@@ -1118,6 +1118,7 @@ impl Harness for C17 {
                 "structured": format!("every length 1..30, {} catalogue (zero, ones, ramps, alternating, unit vectors, one-coordinate modifications incl. +1e-9, mixed magnitudes, fractions), scales 1, 1e-6, 1e6", if t { "full" } else { "reduced" }),
                 "mahalanobis_covariance": format!("every integer SPD 2x2 with |entries|<=3 on S5^2; every integer SPD 3x3 with {} and cond2<=1e4 on S3^3; structured SPD families (identity, Toeplitz(2,-1), min(i,j), rank-one+ridge, graded diagonal, D*T*D) of order 4..{}; covariance scaled by 2^k, k in {:?}; vector scales 1, 1e-6, 1e6", if t { "diag 1..3, off-diag in -2..2" } else { "diag 1..2, off-diag in -1..1" }, if t { 12 } else { 8 }, cov_scales),
                 "mahalanobis_data": format!("rows from S5 (d=1) / S3^d (d=2,3); (d, m, sequences|multisets, data scales 2^k, types): {:?}; every data set with positive-definite sample covariance; all pairs and triples of the lattice (d<=2) / 8 fixed points (d=3) as arguments", data.iter().map(|(d, m, o, sc, ty)| format!("d={} m={} {} 2^{:?} {}", d, m, if *o { "sequences" } else { "multisets" }, sc, ty.join("+"))).collect::<Vec<_>>()),
+                "mahalanobis_tiny_and_huge_scales": format!("round 2 — new_from_covariance: every integer SPD 2x2 with |entries|<=3{} times 2^k with the query lattice times 2^(k/2), k in {:?} (f64) / {:?} (f32), all pairs and triples; from-data constructor: the (d, m) families {:?} with data rows and query points times 2^k, k in {:?} (f64) / {:?} (f32){}; same double-double closed form and the same (8+2n^2)*cond2 eps relative tolerance (cond2 is scale-invariant)", if t { " and every integer SPD 3x3 of the thorough set" } else { "" }, rescale_exponents("f64"), rescale_exponents("f32"), rescaled_shapes.iter().map(|(d, m, o)| format!("d={} m={} {}", d, m, if *o { "sequences" } else { "multisets" })).collect::<Vec<_>>(), DS_X64, DS_X32, if t { " (f32 at 2^±20 is part of the older data-scale list)" } else { "" }),
                 "mismatched_lengths": "every metric x lengths 0..4 x 0..4 (Mahalanobis of order 1..3) x {prefix-consistent, distinct} contents",
                 "seed": format!("perturbation {:?} (a*v+b) of the lattice alphabets", cat::perturbation(seed)),
             }),
